@@ -37,8 +37,10 @@ def Emitted(m, pname, sent0, sent1):
             and same_value(nth(last(sent1), 4), m.parameters[pname].timestamp))
 
 
-def Silent(m, pname, sent0, sent1, readerror0):
-    return len(sent1) == len(sent0) and same_value(m.parameters[pname].readerror, readerror0)
+def Silent(m, pname, sent0, sent1, readerror0, value0):
+    """nothing is emitted: then the cache still says what the last message said (same error state, equal value)"""
+    return (len(sent1) == len(sent0) and same_value(m.parameters[pname].readerror, readerror0)
+            and (m.parameters[pname].readerror is not None or py_eq(m.parameters[pname].value, value0)))
 
 
 CONTRACTS = [
@@ -55,11 +57,12 @@ CONTRACTS = [
          requires=['inv(self)', 'pname in self.parameters', 'timestamp is None or (is_finite_float(timestamp) and timestamp >= 0)', 'pname in self.paramCallbacks',
 
                    "self.parameters[pname].export != ''",
-                   # stated domain of the proof: a float parameter (values of other kinds: bounded stand-in)
-                   'value is None or is_finite_float(value)', 'implies(err is None and not validate, is_finite_float(value))'],
+                   ],
+         # stated domain of the proof only (the bounded stand-in evaluates the contract for the other value kinds as well)
+         vc_requires=['value is None or is_finite_float(value)', 'implies(err is None and not validate, is_finite_float(value))'],
          modifies=['value', 'readerror', 'timestamp', 'report_error', 'args'], check_frame=False,
          ensures={'emit_or_silent': 'Emitted(self, pname, old(sent), sent)'
-                                    ' or Silent(self, pname, old(sent), sent, old(self.parameters[pname].readerror))',
+                                    ' or Silent(self, pname, old(sent), sent, old(self.parameters[pname].readerror), old(self.parameters[pname].value))',
                   'recovery': 'implies(old(self.parameters[pname].readerror) is not None and self.parameters[pname].readerror is None,'
                               ' Emitted(self, pname, old(sent), sent))',
                   'stored': 'implies(err is None and not validate, same_value(self.parameters[pname].value, value))',
